@@ -449,7 +449,11 @@ type udpSrv struct {
 	boot chan struct{}
 }
 
-func (s *udpSrv) OnBoot(eng gnet.Engine) gnet.Action { s.eng.Store(eng); close(s.boot); return gnet.None }
+func (s *udpSrv) OnBoot(eng gnet.Engine) gnet.Action {
+	s.eng.Store(eng)
+	close(s.boot)
+	return gnet.None
+}
 
 func (s *udpSrv) OnTraffic(c gnet.Conn) gnet.Action {
 	el := c.EventLoop()
